@@ -30,7 +30,7 @@ def glob_matrix(quick):
     pl, sl = (3, 4) if quick else (4, 5)
     pats = [''.join(t).encode() for n in range(1, pl + 1) for t in itertools.product('ab*?', repeat=n)]
     pats += [b'*aab', b'*ab*', b'*a*b', b'a*b*a', b'**a', b'*?b', b'?*?', b'[ab]*', b'*[ab]', b'[^a]*', b'*[a-b]b', b'a[b]', b'\\*a',
-             b'a\\*', b'*abab', b'*ba*ab', b'a*a*a', b'*aa*aa', b'[ab]b', b'a[^b]', b'*-done', b'*.a.b']
+             b'a\\*', b'[\\a]*', b'*[\\b]', b'[a\\]b]*', b'*abab', b'*ba*ab', b'a*a*a', b'*aa*aa', b'[ab]b', b'a[^b]', b'*-done', b'*.a.b']
     subs = [''.join(t).encode() for n in range(1, sl + 1) for t in itertools.product('ab', repeat=n)]
     subs += [b'aaab', b'ababab', b'babab', b'aabaab', b'*a', b'a*', b'job--done', b'job-done', b'x.a.a.b', b'aaaaab', b'abaabaab']
     return pats, subs
